@@ -67,8 +67,8 @@ ASSUMPTIONS = [
 BOUNDS = {
     "quick": {
         "g1": "depth 0..3 x 9 spellings x (9 written-in mechanisms x 4 sites + 3 namespace-relative mechanisms) x present/absent x 3 backings",
-        "g2": "2^5 presence combinations x inline def with/without context reference x 5 import modes x 6 probes (tag in the base) + 4 probes (tag in the derived template) + anonymous namespaces, put_string backing; inline-only namespaces",
-        "g3": "2 page signatures x 8 arg sets x 8 context sets x 4 includers x 2 mechanisms (+ inheriting targets) x 2 backings",
+        "g2": "2^5 presence combinations x inline def with/without context reference x 5 import modes x 6 probes (tag in the base) + 4 probes (tag in the derived template) + anonymous namespaces, put_string backing; inline-only namespaces; two <%namespace import=> tags on one line (6 name-less/named and named/star combinations x context competitors x 3 probes x tag in a plain template or in a base)",
+        "g3": "2 page signatures x 8 arg sets x 8 context sets x 4 includers x 2 mechanisms (+ inheriting targets) x 2 backings; include inside a def called by name / through self from a body whose value comes from <%page args> bound by an outer include, a top-level assignment, both, or a top-level-rendered body's assignment x render() supplies the name or not x required/defaulted target argument x args given or not x 2 names",
         "g4": "module namespace: 5 import modes x inline/context competitors x 7 probes",
         "g5": "chains of 1..2 hops x 5 mechanisms per hop x 3 directories per file x relative/absolute spelling, files backing (+ put_string where no dot segment); 3 hops x {include, namespace def, inherit} x 2 directories, relative",
         "g6": "g1 x g3: depth 0..3 x 3 spellings x 4 include mechanisms x sites x 4 arg sets x 4 context sets",
@@ -77,7 +77,7 @@ BOUNDS = {
     "thorough": {
         "g1": "depth 0..3 x 15 spellings x (9 x 4 + 3) mechanisms x present/absent x 3 backings x main URI with/without leading slash (files)",
         "g2": "as quick + files backing + 3-level inheritance chain + import list spelled 'f ,k'",
-        "g3": "3 page signatures x 8 arg sets x 8 context sets x 4 includers x 2 mechanisms x 2 backings",
+        "g3": "3 page signatures x 8 arg sets x 8 context sets x 4 includers x 2 mechanisms x 2 backings; def-called-from-body includes as quick",
         "g4": "as quick",
         "g5": "chains of 1..2 hops x 5 mechanisms x 4 directories, 3 hops x 5 mechanisms x 3 directories, 4 hops x 3 mechanisms x 2 directories, relative/absolute spelling; 5 hops (6 files) x 3 mechanisms and 7 hops (8 files) x mechanism vectors over {include, namespace def} with at most one change x 2 directories, relative",
         "g6": "g1 x g3: depth 0..3 x 5 spellings x 4 include mechanisms x sites x 4 arg sets x 8 context sets",
@@ -353,6 +353,43 @@ def gen_g2(tier, al):
                         # <%namespace> without a name: reachable through import only
                         meta = {"grid": "g2", "I": I, "F": F, "P": P, "C": C, "H": H, "iuse": iuse, "imp": imp, "probe": probe, "anon": 1}
                         yield meta, functools.partial(g2_program, al, I, F, P, C, H, iuse, imp, probe, 2, anon=True)
+    # several <%namespace> tags on one source line (the printer never breaks lines), two of them without a
+    # name: each must contribute its own imports
+    v = al["vals"]
+    for kinds in (("anon:f", "anon:*"), ("anon:*", "anon:f"), ("anon:f", "named:*"), ("named:*", "anon:f"), ("anon:f", "anon:g"), ("anon:*", "anon:*")):
+        for cf, cg in itertools.product((0, 1), repeat=2):
+            for probe in ("f", "g", "def-both"):
+                for site in ("plain", "base"):
+                    ctx = {"x": v[0]}
+                    if cf:
+                        ctx["f"] = "@helper:cf"
+                    if cg:
+                        ctx["g"] = "@helper:cg"
+                    files = {
+                        "/q/lib/a.html": File(defs=[Def("f", "", [T("[A-f:"), ["var", "x"], T("]")])], body=[T("[a-body]")]),
+                        "/q/lib/b.html": File(defs=[Def("g", "", [T("[B-g:"), ["var", "x"], T("]")])], body=[T("[b-body]")]),
+                    }
+                    nss = []
+                    for i, kd in enumerate(kinds):
+                        nm, imp = kd.split(":")
+                        # first tag -> a.html (defines f), second -> b.html (defines g); a named import takes the def its file has
+                        tgt, has = ("lib/a.html", "f") if i == 0 else ("lib/b.html", "g")
+                        nss.append(Ns(None if nm == "anon" else "n%d" % i, file=tgt, imp="*" if imp == "*" else has))
+                    defs = []
+                    if probe == "f":
+                        st = [["call", "f", ""]]
+                    elif probe == "g":
+                        st = [["call", "g", ""]]
+                    else:
+                        defs = [Def("dd", "", [["call", "f", ""], T("+"), ["call", "g", ""]])]
+                        st = [["call", "dd", ""]]
+                    if site == "plain":
+                        files["/q/main.html"] = File(ns=nss, defs=defs, body=[T("<")] + st + [T(">")])
+                    else:
+                        files["/q/base.html"] = File(ns=nss, defs=defs, body=[T("B<")] + st + [T(">("), ["attr", "next", "body", ""], T(")")])
+                        files["/q/main.html"] = File(inherit="base.html", body=[T("M")])
+                    meta = {"grid": "g2", "I": 0, "F": 1, "P": 0, "C": cf or cg, "H": 0, "iuse": 0, "imp": "+".join(kinds), "probe": "q_bare", "one_line": 1}
+                    yield meta, functools.partial(_const, (files, "/q/main.html", ctx))
     # namespaces that consist only of the defs written in the tag
     for C in (0, 1):
         for iuse in (0, 1):
@@ -445,6 +482,34 @@ def gen_g3(tier, al):
                         M = g3_includer(files, includer, stmt)
                         meta = {"grid": "g3", "page": page, "args": args, "ctx": sorted(ctx), "includer": includer, "mech": mech}
                         yield meta, functools.partial(_const, (files, M, dict(ctx)))
+    # the include sits in a def that the body calls by its bare name: the def (and so the include) sees the
+    # body's <%page> arguments and top-level assignments in its context (A2(6)), whatever render() was given
+    for source in ("page", "assign", "both", "main-assign"):
+        for rc in (0, 1):
+            for target in ("required", "defaulted"):
+                for ia in (0, 1):
+                    for style in ("bare", "self"):
+                        for name in ("a", "b"):
+                            ctx = {name: v[0] + "render"} if rc else {}
+                            tpage = name if target == "required" else "%s='dflt'" % name
+                            files = {"/w/site/inc/hdr.html": File(page=tpage, body=[T("[" + name + "="), ["var", name], T(" c="), ["ctxget", "c"], T(tx + "]")])}
+                            inc = ["include", "inc/hdr.html", ("%s='%sarg'" % (name, v[1])) if ia else ""]
+                            hdr = Def("header", "", [T("h<"), inc, T(">")])
+                            call = ["call", "header", ""] if style == "bare" else ["attr", "self", "header", ""]
+                            pre = []
+                            if source in ("assign", "both", "main-assign"):
+                                pre = [["assign", name, "'%sassigned'" % v[2]]]
+                            page = File(page=name if source in ("page", "both") else None, defs=[hdr], body=[T("p(")] + pre + [call, T(")")])
+                            if source == "main-assign":
+                                files["/w/site/main.html"] = page
+                                M = "/w/site/main.html"
+                            else:
+                                files["/w/site/page.html"] = page
+                                oa = ("%s='%souter'" % (name, v[0])) if source in ("page", "both") else ""
+                                files["/w/main.html"] = File(body=[T("<"), ["include", "site/page.html", oa], T(">")])
+                                M = "/w/main.html"
+                            meta = {"grid": "g3", "page": tpage, "args": inc[2], "ctx": sorted(ctx), "includer": "def-called-from-body:" + source, "mech": "tag", "style": style}
+                            yield meta, functools.partial(_const, (files, M, dict(ctx)))
     # targets with their own inheritance: own self/local/parent/next, nothing of the includer's
     for includer in G3_INCLUDERS:
         for mech in ("tag", "include_file"):
@@ -848,7 +913,7 @@ def execute(case):
             shutil.rmtree(wd, ignore_errors=True)
 
 
-_WINNER = re.compile(r"\[(I|F|P)-(?:f|plain)|<ctx-f>|P\(|R\(")
+_WINNER = re.compile(r"\[(I|F|P)-(?:f|plain)|\[A-f|\[B-g|<ctx-[fg]>|P\(|R\(")
 
 
 def _winner(obs):
@@ -857,7 +922,7 @@ def _winner(obs):
         if not m:
             return "none"
         g = m.group(0)
-        return {"[I-f": "inline", "[F-f": "file", "[P-f": "inherited", "[I-plain": "inline", "<ctx-f>": "context", "P(": "module", "R(": "module"}.get(g, g)
+        return {"[I-f": "inline", "[F-f": "file", "[P-f": "inherited", "[I-plain": "inline", "<ctx-f>": "context", "<ctx-g>": "context", "[A-f": "file", "[B-g": "file", "P(": "module", "R(": "module"}.get(g, g)
     if obs[0] == "exc":
         if obs[1] == "NameError" and "_import_ns" in obs[2]:
             return "NameError(_import_ns)"
@@ -907,6 +972,9 @@ def signature(case, obs, kind):
     if g == "g2":
         impk = "none" if meta["imp"] is None else ("star" if "*" in meta["imp"] else "named")
         ew = _winner(tuple(exp)) if exp[0] == "out" else exp[1]
+        if meta.get("one_line"):
+            anon = sum(1 for k_ in meta["imp"].split("+") if k_.startswith("anon"))
+            return "g2:%d name-less <%%namespace import=> tags on one line:exp=%s:obs=%s" % (anon, ew, _winner(obs))
         return "g2:%s:import=%s%s:exp=%s:obs=%s" % (
             "qualified" if meta["probe"] in ("q_ns", "q_self") else "bare",
             impk,
@@ -927,6 +995,8 @@ def signature(case, obs, kind):
                 feat, how = "args-vs-context", "wrong " + ",".join(parts)
             else:
                 feat, how = "inheritance-tokens", "self/local/parent/next differ"
+        if meta["includer"].startswith("def-called-from-body"):
+            return "g3:include inside a def the body calls by name:%s:exp=%s:obs=%s" % (meta["includer"].split(":")[1], exp[0] if exp[0] != "err" else exp[1], how)
         return "g3:%s:%s:exp=%s:obs=%s" % (meta["mech"], feat, exp[0] if exp[0] != "err" else exp[1], how)
     if g == "g4":
         impk = "none" if meta["imp"] is None else ("star" if "*" in meta["imp"] else "named")
